@@ -42,6 +42,11 @@ ASSUMPTIONS = ['cascades not in the model (exercised by the oracle only): Modify
                'deleted); descriptors it rejects count as outside the fragment',
                'the theorem C09_full has no side condition; it speaks about runs the model accepts (Ok): a recorded '
                'bundle the model rejects although the engine ran it shows up as outside the fragment',
+               'reference cells outside the seven modelled tables and the modelled columns are out of the model and checked '
+               'by the oracle on the real metadata only: _grist_Views_section.linkSrcSectionRef/linkSrcColRef/'
+               'linkTargetColRef, _grist_Filters.viewSectionRef/colRef, _grist_Cells.tableRef/colRef, '
+               '_grist_Triggers.tableRef/isReadyColRef/watchedColRefList (ACL resources name tables and columns by text, '
+               'not by reference)',
                'direct AddRecord/UpdateRecord that write arbitrary references into metadata records are outside the '
                'vocabulary (the engine stores them unchecked)']
 TECHNIQUE = ('Coq proof of an inductive invariant over a hand-written executable model of the metadata cascades + '
@@ -667,6 +672,9 @@ def coq_op(o):
 # recording a bundle: the projection before every user action, after the last one (before the auto-removals)
 # and at the end
 
+GOA_CALLS = []     # observed calls of SummaryActions._get_or_add_columns (all histories of this run)
+
+
 class Recorder(object):
   def __init__(self):
     import engine
@@ -715,14 +723,31 @@ class Recorder(object):
       rec.regroups.append(item)
       return ret
 
+    # every call of _get_or_add_columns with what it saw and what it handed back (validates the translation gen_goa)
+    if not hasattr(summary.SummaryActions, '_get_or_add_columns'):
+      raise core.TieBroken('instrumentation point summary.SummaryActions._get_or_add_columns is gone')
+    self.o_goa = summary.SummaryActions._get_or_add_columns
+
+    def _get_or_add_columns(sa, table, all_colinfo):
+      infos = list(all_colinfo)
+      prior = [(c.colId, int(c.id), c.formula) for c in table.columns]
+      res = list(rec.o_goa(sa, table, infos))
+      after = set(int(c.id) for c in table.columns)
+      if len(GOA_CALLS) < 4000:
+        GOA_CALLS.append(dict(prior=prior, infos=[(ci.colId, ci.formula) for ci in infos],
+                              yields=[int(c.id) for c in res], added=len(after) - len(prior)))
+      return iter(res)
+
     engine.Engine._apply_one_user_action = _apply_one_user_action
     docmodel.DocModel.apply_auto_removes = apply_auto_removes
     summary.SummaryActions.update_summary_section = update_summary_section
+    summary.SummaryActions._get_or_add_columns = _get_or_add_columns
 
   def uninstall(self):
     self.engine.Engine._apply_one_user_action = self.o_ua
     self.docmodel.DocModel.apply_auto_removes = self.o_ar
     self.summary.SummaryActions.update_summary_section = self.o_us
+    self.summary.SummaryActions._get_or_add_columns = self.o_goa
 
   def run(self, e, bundle):
     """Applies the bundle; returns (out, snaps, mid, final) -- snaps[i] is the state before action i."""
@@ -1006,6 +1031,19 @@ def translate(a, P, Q, names, rgs=()):
 # histories -> cases
 
 IMPORTS = ['Grist.Model.MetaCascade']
+
+
+def regenerate(ctx):
+  """Fail closed: (1) every function the model follows still has the pinned AST (harness/mc_pins.json);
+  (2) the deciding pieces are re-translated into coq/gen/MetaCascade_gen.v (bridged in Proofs/MetaCascade_bridge.v)."""
+  import os
+  from harness import mc2v, mc2v_gen
+  text = mc2v_gen.generate(core.GRIST)
+  core.write_if_changed(os.path.join(core.COQ, 'gen', 'MetaCascade_gen.v'), text)
+  ctx.extra['pinned_functions'] = mc2v.check_pins(core.GRIST)
+  ctx.extra['regenerated'] = ['gen_auto_mode/gen_auto_fix (Engine.apply_user_actions end-of-bundle loop)',
+                              'gen_goa (SummaryActions._get_or_add_columns)'] + \
+                             ['%s (%d statements)' % (n, len(t)) for n, t in mc2v_gen.plans(core.GRIST)]
 
 
 def run_histories(ctx, nhist, nb, weights=None, seed_base=0):
@@ -1478,6 +1516,44 @@ def correspond(ctx):
   ctx.extra['bundles'] = len(recs)
   ctx.extra['bundles_fully_modelled'] = len(recs) - len(not_ok)
   ctx.extra['auto_fix_unmodelled'] = len(res['autook'])
+  validate_goa(ctx)
+
+
+GOA_DEFS = '''
+Definition goa_ids (l : list goa_item) : list Z :=
+  List.concat (List.map (fun i => match i with EAdd => [] | YExisting z => [z] | YAdded => [0] end) l).
+Definition goa_adds (l : list goa_item) : Z :=
+  Z.of_nat (List.length (filter (fun i => match i with EAdd => true | _ => false end) l)).
+Definition goa_check (c : list (Z * (Z * Z)) * list (Z * Z) * list Z * Z) : bool :=
+  let '(p, i, ys, n) := c in let g := gen_goa p i in zlist_eqb (goa_ids g) ys && (goa_adds g =? n).
+'''
+
+
+def validate_goa(ctx):
+  """The regenerated gen_goa (the translation of _get_or_add_columns) against every call observed in this run:
+  which existing columns came back, in which positions new ones did, and how many columns were added."""
+  seen, cases, calls = set(), [], []
+  for c in GOA_CALLS:
+    toks = {}
+    tok = lambda s: toks.setdefault(s, len(toks) + 1)
+    prior_ids = set(i for _, i, _ in c['prior'])
+    prior = '[%s]' % '; '.join('(%d, (%d, %d))' % (tok(('n', n)), i, tok(('f', f))) for n, i, f in c['prior'])
+    infos = '[%s]' % '; '.join('(%d, %d)' % (tok(('n', n)), tok(('f', f))) for n, f in c['infos'])
+    ys = '[%s]' % '; '.join(str(y if y in prior_ids else 0) for y in c['yields'])
+    term = '(%s, %s, %s, %d)' % (prior, infos, ys, c['added'])
+    if term not in seen:
+      seen.add(term)
+      cases.append(term)
+      calls.append(c)
+  del GOA_CALLS[:]
+  bad = ctx.run_cases('goa', IMPORTS + ['Grist.Model.MetaCascadePlan', 'GristGen.MetaCascade_gen'], 'goa_check',
+                      cases, shard=500, extra_defs=GOA_DEFS, case_type='list (Z * (Z * Z)) * list (Z * Z) * list Z * Z')
+  ctx.extra['goa_calls_validated'] = len(cases)
+  ctx.extra['goa_calls_adding'] = sum(1 for c in calls if c['added'])
+  ctx.log('gen_goa validated on %d distinct observed calls of _get_or_add_columns (%d adding columns): %d differ'
+          % (len(cases), ctx.extra['goa_calls_adding'], len(bad)))
+  for i in bad[:3]:
+    ctx.broken('translation:gen_goa differs from an observed call of _get_or_add_columns', json.dumps(calls[i]))
 
 
 def shrink_history(history, still_fails):
